@@ -774,6 +774,12 @@ def run_case(ctx):
         # strings in every factor order; the sparse matrix and the expectation value are judged matrix-free
         n = rng.choice([8, 9, 9, 10, 10, 11, 12] if ctx.quick else [8, 9, 10, 11, 12, 13])
         nterms = rng.choice([1, 1, 2, 3])
+        if ctx.index % 24 == 23:
+            # many terms on a wide register: 63 / 64 / 65 / 128 terms on 10 qubits are 2**16, 2**17 matrix entries
+            # (whatever is buffered, folded or chunked on the way to the sparse matrix has its boundary near a power of two)
+            n = 10
+            nterms = rng.choice([63, 64, 65, 128])
+            ctx.mon.note("wide:many-terms")
         specs = []
         for _ in range(nterms):
             k = rng.choice([1, 2, 2, 3, 4])
